@@ -57,8 +57,8 @@ PROPS['C03'] = _shape('C03', 'AEAD/combined-mode')
 PROPS['C04'] = {
     'level': 'model_checking',
     'technique': 'deviation-bounded (CHESS-style) exhaustive schedule enumeration on the real lane managers, differential oracle "same job alone"',
-    'level_text': 'For every suite with an out-of-order lane manager (both directions) and 18 chained cipher+hash suites, on all 7 variants, every schedule "submit n jobs then flush all" for every n = 1..34 with at most k deviations (another length for job i, a flush or get_completed before job i) is executed from the pristine manager image; k = 1 in quick, k = 2 in thorough (n <= 18 and n >= 31). Every job must come back once, in order, with exactly the outputs it gives when processed alone. This reaches every lane occupancy at flush time, lanes freed and refilled mid-flight, min-length scheduling with unequal lanes and two managers active for a chained job.',
-    'level_note': 'Differential oracle: the solo run is trusted only as far as C01-C03 establish it. Suites of different algorithms in one history are covered by C05/C15/C16 histories, not here. Data bytes from VERIF_SEED.',
+    'level_text': 'For every suite with an out-of-order lane manager (both directions) and 18 chained cipher+hash suites, on all 7 variants, every schedule "submit n jobs then flush all" for every n = 1..34 with at most k deviations (another length for job i, a flush or get_completed before job i) is executed from the pristine manager image; k = 1 in quick, k = 2 in thorough (n <= 18 and n >= 31). Every job must come back once, in order, with exactly the outputs it gives when processed alone. This reaches every lane occupancy at flush time, lanes freed and refilled mid-flight, min-length scheduling with unequal lanes and two managers active for a chained job. Mixed-suite units put jobs of two different suites that share a lane manager into one schedule (job and asynchronous burst API). Second driver (props/c04s.c): a synchronous cipher / hash / AEAD burst of 1, 3, 9 or 17 jobs (checked and no-check) issued while 1..9 asynchronous jobs - the same row, a chained cipher->hash job or a chained hash->cipher job - are parked in the same out-of-order manager; the burst must return exactly its own jobs and every job, synchronous or asynchronous, must equal the same job processed alone.',
+    'level_note': 'Differential oracle: the solo run is trusted only as far as C01-C03 establish it. Histories mixing many different algorithms are covered by the C05/C15/C16 histories. Data bytes from VERIF_SEED.',
     'drivers': [{'name': 'c04', 'src': ['props/c04.c'] + ALG, 'cfgs': ['std'], 'args': ''},
                 # synchronous bursts issued while asynchronous jobs are parked in the same out-of-order manager
                 {'name': 'c04s', 'src': ['props/c04s.c'] + ALG, 'cfgs': ['std'], 'args': ''}],
@@ -216,7 +216,7 @@ PROPS['C19'] = {
 PROPS['C17'] = {
     'level': 'model_checking',
     'technique': 'exhaustive enumeration of all call-level interleavings of 2 (thorough: 3) managers on the real library against solo runs + library-global footprint invariant (PROT_NONE single-step monitor over the shared object\'s writable pages) that reduces every thread schedule to one of those interleavings + free-running thread-sanitizer pass',
-    'level_text': 'Step 1: for all 49 ordered variant pairs (incl. the same variant twice) and all 100 pairs of ten six-call histories (jobs completing at submit, jobs parked in out-of-order lanes, a rejected job, flush / get_completed / queue_size, direct-API calls), all C(12,6) = 924 interleavings are executed from the pristine manager images; every call must observe exactly what it observes in its manager\'s solo run (returned job, status, per-manager error code, all output bytes). Thorough adds three managers (sse_t3, avx2_t2, avx512_t2), 3-call prefixes, all 1680 interleavings x 1000 history triples. Step 2: the library is linked as a shared object whose writable pages past RELRO are PROT_NONE during every library call of the solo runs, of a sweep over every algorithm row x direction x variant (job and burst API), of the direct API, the key helpers and init; a SIGSEGV + single-step handler logs every access. Invariant: only imb_errno (documented process-wide mirror), the session counter inside imb_set_session and the CPUID cache inside init are touched - so calls on distinct managers commute and every thread schedule is equivalent to an interleaving of step 1. Step 3 (props/c17t.c): the same histories on real threads (one manager per thread, 2..7 threads, all variants) under the thread sanitizer, library C files instrumented; any report other than on imb_errno fails; outputs must equal the solo outputs.',
+    'level_text': 'Step 1: for all 49 ordered variant pairs (incl. the same variant twice) and all 100 pairs of ten six-call histories (jobs completing at submit, jobs parked in out-of-order lanes, a rejected job, flush / get_completed / queue_size, direct-API calls), all C(12,6) = 924 interleavings are executed from the pristine manager images; every call must observe exactly what it observes in its manager\'s solo run (returned job, status, per-manager error code, all output bytes). Thorough adds three managers (sse_t3, avx2_t2, avx512_t2), 3-call prefixes, all 1680 interleavings x 1000 history triples. Step 2: the library is linked as a shared object whose writable pages past RELRO are PROT_NONE during every library call of the solo runs, of a sweep over every algorithm row x direction x variant (job and burst API), of the direct API, the key helpers and init; a SIGSEGV + single-step handler logs every access. Invariant: only imb_errno (documented process-wide mirror), the session counter inside imb_set_session and the CPUID cache inside init are touched - so calls on distinct managers commute and every thread schedule is equivalent to an interleaving of step 1. Step 2b (adversarial mirror): the solo histories and a re-initialisation are repeated with a foreign error code stored into the process-wide mirror immediately before every read the library makes of it (what a manager of another thread may do at any time); observations and the initialised manager image must not change. Step 3 (props/c17t.c): the same histories on real threads (one manager per thread, 2..7 threads, all variants) under the thread sanitizer, library C files instrumented; any report other than on imb_errno fails; outputs must equal the solo outputs.',
     'level_note': 'Histories are 6 calls from a fixed set of 10 programs. Assembly is invisible to the thread sanitizer; the footprint monitor (step 2) covers it. session_id values and the fall-back of imb_get_errno() to the process-wide mirror are documented as process-wide and not demanded.',
     'drivers': [{'name': 'c17', 'src': ['props/c17.c'] + ALG, 'cfgs': ['so'], 'args': ''},
                 {'name': 'c17t', 'src': ['props/c17t.c'] + ALG, 'cfgs': ['tsan'], 'args': ''}],
